@@ -195,9 +195,12 @@ OnRet(m, e) ==
                THEN {<<"C06", "device-level authenticate failed with something other than an authentication error">>} ELSE {}
       b14 == IF cl.op = "send" /\ cl.resp /\ e.r # "frames"
                THEN {<<"C08", "a valid response arrived while the exchange was waiting for it, yet the exchange did not return it">>} ELSE {}
-      b13 == IF cl.op = "auth" /\ cl.genuine /\ cl.canSucceed /\ e.r = "auth"
+      b15 == IF cl.op = "auth" /\ cl.silent /\ cl.hs > 0 /\ ~cl.cancelled
+                  /\ (cl.hs # Retries \/ e.r # (IF DevLevel THEN "auth" ELSE "timeout"))
+               THEN {<<"C06", "unanswered handshake did not end in a timeout after exactly `retries` handshake requests (a later genuine reply could not be accepted)">>} ELSE {}
+      b13 == IF cl.op = "auth" /\ cl.genuine /\ cl.canSucceed /\ ~ok /\ e.r # "cancelled"
                THEN {<<"C06", "authentication failed although the device's reply proved knowledge of the key">>} ELSE {}
-  IN [ m EXCEPT !.bad = @ \cup b1 \cup b2 \cup b3 \cup b4 \cup b5 \cup b5b \cup b6 \cup b7 \cup b8 \cup b9 \cup b10 \cup b11 \cup b12 \cup b13 \cup b14,
+  IN [ m EXCEPT !.bad = @ \cup b1 \cup b2 \cup b3 \cup b4 \cup b5 \cup b5b \cup b6 \cup b7 \cup b8 \cup b9 \cup b10 \cup b11 \cup b12 \cup b13 \cup b14 \cup b15,
                 !.call = NoCall, !.stored = e.stored, !.prevFailed = ~ok,
                 !.conns = [c \in 1..Len(m.conns) |-> IF c = m.cur /\ e.r = "frames" THEN [m.conns[c] EXCEPT !.stray = 0] ELSE m.conns[c]] ]
 
